@@ -128,7 +128,7 @@ CLAIMED["C21"] = dict(engine="filersim", design="§6 C21; Part II §A",
    note=FILERNOTE + " The link counter is maintained by the client (as in the mount); after a FAILED faulted two-request sequence the counter may be off by the half-done step (recorded as a probe).")
 CLAIMED["C24"] = dict(engine="filersim", design="§6 C24; Part II §A",
    technique=TECH + "entries with drawn attributes, 0-70 chunks, extended attributes, inline content and hard-link fields written to real leveldb/leveldb2/leveldb3 stores and read back by lookup and listing across clean restarts",
-   text="Partial claim: codec equality over entry shapes is input generation and only sampled. Simulation adds the durable-store part: what was acknowledged is read back equal, field by field (chunk file ids in canonical form), by lookup and by listing, immediately and after a restart of the store, including entries over the compression threshold and gzip-looking content.",
+   text="Partial claim: codec equality over entry shapes is input generation and only sampled. Simulation adds the durable-store part: what was acknowledged is read back equal, field by field (chunk file ids in canonical form), by lookup and by listing, immediately and after a restart of the store, including entries over the compression threshold, gzip-looking content, and chunks sent with both id forms (a stale struct beside the string id, as an entry read back and edited by a client carries; the string must come back).",
    note=FILERNOTE + " Remote-storage info and mime application/octet-stream (deliberately normalised) are not generated.")
 CLAIMED["C36"] = dict(engine="filersim", design="§6 C36; Part II §A",
    technique=TECH + "the real filer's change stream consumed by the real Replicator and by the real filer.sync / filer.backup event function (through the real SubscribeLocalMetadata handler) into recording sinks and the real local sink, with drawn catch-up points and redelivery; projection oracle",
